@@ -5,12 +5,14 @@ import sys
 import checks_core
 import checks_sexp
 import checks_types
+import checks_problem
 
 CHECKS = {
     "C02": (lambda ctx: checks_core.run_core(ctx, "pre"), "model_checking"),
     "C03": (lambda ctx: checks_core.run_core(ctx, "eff"), "model_checking"),
     "C11": (checks_sexp.run, "model_checking"),
     "C06": (checks_types.run, "model_checking"),
+    "C05": (checks_problem.run, "model_checking"),
 }
 
 
@@ -52,6 +54,15 @@ META["C06"] = {
     "text": "MC_Types enumerates every forest, declaration order, grouping and spelling and checks that reading the "
             "declarations back yields the forest's closure; the renderings are driven through the library and every subtype "
             "answer, hierarchy edge, typed-fact acceptance and forall range is judged against the spec's reading."}
+META["C05"] = {
+    "engine": "M+G+V", "design_ref": "DESIGN.md section 6 (C05)",
+    "note": "Exhaustive over the single-point corruptions of the family's base problems; random beyond. Known finding "
+            "GoalFluentUnchecked (numeric goal fluents are not validated).",
+    "technique": "TLC model checking of WFProblem over a problem family and all its single-point corruptions + those problems "
+                 "rendered by the spec and replayed into ProblemParser + trace validation of random problems",
+    "text": "MC_Problem checks that every base problem is well formed, is read back unchanged from its rendering in every "
+            "object-list style, and that every single-point corruption is ill formed; the rendered problems and random "
+            "ones are parsed by the library and TLC judges acceptance (iff WFProblem) and the parsed content."}
 NOT_YET = {}
 
 
